@@ -240,7 +240,7 @@ func newC09Env(c *Ctx, T time.Duration) *c09Env {
 			e.pairT = nil
 		}
 	}
-	e.closed = freePort("127.0.0.1")
+	e.closed = unlistenedPort("127.0.0.1")
 	e.fm.SetScript(e.script)
 	return e
 }
